@@ -7,7 +7,7 @@ A *group* is one alphabet of Cobweb.tla with
 """
 
 def C(**kw):
-    base = dict(NSys=2, NOnce=0, NW=0, NER=0, NEnt=1, NTy=1, NVal=1, OpNames=set(), Modes=set(), MaxOps=2, Budget=3, MaxSteps=2,
+    base = dict(NSys=2, NOnce=0, NW=0, NER=0, NEnt=1, Hier=0, NTy=1, NVal=1, OpNames=set(), Modes=set(), MaxOps=2, Budget=3, MaxSteps=2,
                 StepKinds={"ops"}, Features=set(), Defects=set(), Mutants=set(), Scripted=False, FinalStep="")
     base.update(kw)
     if "BodyOps" not in kw:
@@ -123,6 +123,23 @@ GROUPS["erburst"] = dict(
                    ["reg", "persistent", 1, [["anyev", 1], ["mut", 1], ["ins", 1], ["mut", 2]], 0],
                    ["reg", "persistent", 2, [["eev", 1, 1], ["emut", 2, 1], ["rem", 1]], 0]]),
 )
+# entity hierarchy and direct world access: recursive despawn (by command, by direct access, by the garbage collector),
+# plain despawn of parents and children, removal by direct access, between trees and inside them: C08 C18 C07
+GROUPS["hier"] = dict(
+    subst=dict(Bundles="B_Comp", InitOps="Init_Hier"),
+    mc_quick=C(NSys=2, NEnt=3, Hier=3, OpNames={"desprec", "xdesp", "xrm", "desp", "sysevsig"}, MaxOps=2, Budget=2, MaxSteps=3,
+               StepKinds={"ops", "direct", "clear"}),
+    mc_thorough=C(NSys=2, NEnt=3, Hier=3, OpNames={"desprec", "xdesp", "xdesprec", "xrm", "desp", "sysevsig"}, MaxOps=2, BodyOps=1, Budget=3, MaxSteps=3,
+                  StepKinds={"ops", "direct", "clear"}),
+    gen=C(NSys=3, NEnt=3, Hier=3, NVal=2, OpNames={"desprec", "xdesp", "xdesprec", "xrm", "desp", "rm", "sysevsig", "ins", "run", "reg", "revoke", "mut"},
+          Modes=ALLMODES, MaxOps=3, Budget=9, MaxSteps=4, StepKinds={"ops", "direct", "clear", "poll", "gc", "frame"}),
+    rnd=dict(cfg=dict(kinds=["plain", "plain", "excl"], nonce=1, nent=3, hier=3),
+             alphabet=["desprec", "xdesp", "xdesprec", "xrm", "desp", "rm", "sysevsig", "ins", "run", "reg", "revoke", "mut", "once", "probe", "sysev"],
+             trigs=["rem", "erem", "desp", "ins", "emut"], max_ops=3, budget=12, steps=5, ntypes=2, nvals=2, p_gcpoll=25, p_frame=25, p_direct=30,
+             init=[["ins", 1, 1, 1], ["ins", 2, 1, 1], ["ins", 3, 1, 1], ["ins", 2, 2, 1],
+                   ["reg", "persistent", 1, [["rem", 1], ["erem", 2, 1], ["desp", 3]], 0],
+                   ["reg", "cleanup", 2, [["desp", 1], ["desp", 2], ["erem", 3, 1], ["rem", 2]], 0]]),
+)
 # long trees (dozens of commands in one flush): random programs only, validated by TraceProps and TraceConf
 GROUPS["long"] = dict(
     rnd=dict(cfg=dict(kinds=["plain", "plain", "plain"], nonce=0, nent=1), alphabet=["run", "sysev", "bc", "eev", "probe"],
@@ -162,13 +179,13 @@ PROP_ENUMS = {
 # which groups decide which property; the first group is the property's "home"
 PROP_GROUPS = {
     "C01": ["reg", "ev", "comp"],
-    "C02": ["run", "ev", "long"],
+    "C02": ["run", "ev", "long", "mix"],
     "C03": ["ev", "mix", "burst", "erburst"],
     "C04": ["ev", "run"],
     "C05": ["ev", "reg", "mix"],
     "C06": ["reg", "comp"],
-    "C07": ["reg", "comp"],
-    "C08": ["comp", "mix"],
+    "C07": ["reg", "comp", "hier"],
+    "C08": ["comp", "mix", "hier"],
     "C09": ["run", "ev", "burst"],
     "C11": ["run", "reg", "mix"],
     "C12": ["run", "burst", "ev", "erburst"],
@@ -176,7 +193,7 @@ PROP_GROUPS = {
     "C14": ["comp"],
     "C15": ["reg"],
     "C16": ["world"],
-    "C18": ["reg", "mix"],
+    "C18": ["reg", "mix", "hier"],
 }
 
 # sizes per tier: simulated behaviours per group, random programs per group, TLC time limits (s)
